@@ -46,8 +46,8 @@ def divide_by_constant_zero(a: int) -> int:
     return a // (LIMIT - 10)
 
 
-def raising_call_short_circuit(a: int) -> bool:
-    return a > 0 and _raiser(a) > 1
+def raising_call_short_circuit(a: int) -> int:
+    return 1 + (2 if (a > 0 and _raiser(a) > 1) else 0)
 
 
 def truthiness_of_int(a: int) -> int:
